@@ -72,6 +72,33 @@ def isolation(ctx, md, drivers):
             ctx.require(vkey(got) == vkey(ref), "C17.O6", f"{B.name} after {A.name} at the same voltage == {B.name} alone",
                         f"{B.name}.getDistance() returns {got!r} after a {A.name} sensor was read at the same voltage, but {ref!r} on its own: state is shared between sensors", site=site, key=f"C17.O6|{A.name}|{B.name}")
     ctx.floor("sensor pairs checked for isolation", n, 9)
+    # constructing a sensor (with every optional constructor parameter given) writes nothing that another sensor reads
+    for B in drivers:
+        c, init = B.lookup("__init__")
+        extra = []
+        if init is not None and getattr(fn.func_of(init), "node", None) is not None:
+            a = fn.func_of(init).node.args
+            extra = [p.arg for p in (a.args[2:] + a.kwonlyargs)]
+            if a.kwarg is not None:
+                # **options: the names a class-level table of defaults offers
+                from ..values import DictV as _D
+
+                for c_ in B.mro:
+                    for v_ in c_.ns.values():
+                        if isinstance(v_, _D):
+                            extra += [k_ for k_ in v_.items if isinstance(k_, str) and k_ not in extra]
+        if not extra:
+            continue
+        it = Interp(ctx.program, hooks=SameVoltage())
+        try:
+            b0 = it.call(B, [Sym("portB", "num")], {})
+            ref = it.call(it.getattr(b0, "getDistance"), [], {})
+            it.call(B, [Sym("portC", "num")], {k: Sym("override_" + k, "num", uid=0) for k in extra})
+            got = it.call(it.getattr(b0, "getDistance"), [], {})
+        except Exception:
+            continue
+        site = (md.filename, B.node.lineno, B.name + ".__init__")
+        ctx.require(vkey(got) == vkey(ref), "C17.O6", f"{B.name}: another instance built with {extra} overridden does not change this one", f"after another {B.name} was constructed with {extra} overridden, an existing default-constructed {B.name} reads {got!r} instead of {ref!r}: per-instance settings are written to class-level state", site=site, key=f"C17.O6|ctor|{B.name}")
 
 
 def check(ctx):
@@ -123,6 +150,10 @@ def check(ctx):
             for ps in ea.pow_sites(R):
                 lo, hi = ea.interval(ps.args[0], env)
                 ctx.require(lo > 0, "C17.O1", f"{K.name}: pow base {ps.args[0]!r} in [{float(lo)}, {hi}]", f"{K.name}.getDistance: the base of pow() can be {float(lo) if lo != -ea.INF else '-inf'} (<= 0) for some voltage: math domain error / infinite result for zero or negative voltage", site=site, key=f"C17.O1|{K.name}")
+                ex = ps.args[1] if len(ps.args) > 1 else None
+                if isinstance(ex, (int, F)) and not isinstance(ex, bool) and ex > 0:
+                    # math.pow raises OverflowError for a large finite base and a positive exponent (it does not for a negative one)
+                    ctx.require(hi != ea.INF, "C17.O1", f"{K.name}: pow with positive exponent has a bounded base", f"{K.name}.getDistance raises pow({ps.args[0]!r}, {float(ex)}) with an unbounded base: math.pow overflows (OverflowError) for large finite voltages instead of returning the minimum distance", site=site, key=f"C17.O1|{K.name}|overflow")
             # law
             law = None
             cf = ea.clamp_form(R)
